@@ -864,6 +864,10 @@ class SMPose(SMUserList):
         """
 
         assert type(n) is int, 'exponent must be an int'
+        if n < 0:
+            # negative power: positive power of the inverse, using the closed-form
+            # inverse of the class (exact, and also defined for symbolic values)
+            return self.inv() ** (-n)
         return self.__class__([np.linalg.matrix_power(x, n) for x in self.data], check=False)
     #----------------------- arithmetic
 
